@@ -19,9 +19,12 @@ TRUSTED = []
 ASSUMPTIONS = []
 
 
-def _fit_eof(B, layout="3d", n=4, p=4, k=2, **kw):
+def _fit_eof(B, layout="3d", n=4, p=4, k=2, rotated=False, **kw):
     X, dim, fd = M.make_input(B, layout, n, p, False, {})
-    return M.single("EOF", n_modes=k, solver="full", **kw).fit(X, dim), X
+    m = M.single("EOF", n_modes=k, solver="full", **kw).fit(X, dim)
+    if rotated:
+        m = M.rotate(m, n_modes=2, power=1)
+    return m, X
 
 
 def h_fit_fault(B, fault="numpy-input"):
@@ -77,8 +80,8 @@ def h_alpha(B, kind="negative"):
             B.eq("alpha > 1 behaves as alpha = 1", r.data["singular_values"], ref.data["singular_values"])
 
 
-def h_transform_fault(B, fault="missing-feature-dim", layout="3d", restored=False):
-    model, X = _fit_eof(B, layout)
+def h_transform_fault(B, fault="missing-feature-dim", layout="3d", restored=False, rotated=False):
+    model, X = _fit_eof(B, layout, rotated=rotated)
     if restored:
         model = type(model).deserialize(model.serialize())
     B.covers("transform-time validation")
@@ -210,6 +213,9 @@ def configs(tier):
     for f in ("missing-feature-dim", "extra-dim", "renamed-dim", "shifted-feature-coordinate", "reordered-coordinate-different-values", "shorter-feature-dim", "numpy-input", "dataset-instead-of-dataarray", "list-of-two", "no-sample-dim"):
         add("h_transform_fault", f"transform|{f}", fault=f)
         add("h_transform_fault", f"transform on a deserialised model|{f}", fault=f, restored=True)
+        if tier == "thorough":
+            add("h_transform_fault", f"transform on a rotated model|{f}", fault=f, rotated=True)
+            add("h_transform_fault", f"transform on a rotated, deserialised model|{f}", fault=f, rotated=True, restored=True)
     for f in ("dropped-variable", "dataarray-instead-of-dataset", "wrong-list-length", "single-item-for-list"):
         add("h_transform_fault_containers", f"transform|{f}", fault=f)
     for f in ("unknown-mode", "numpy-scores", "extra-dim-is-valid"):
